@@ -7,7 +7,8 @@ Local Open Scope string_scope. Local Open Scope list_scope.
 
 Definition pr_rt (rt: option (option string)) : list tt :=
   match rt with Some (Some a) => [TP PAmp; TP PQuote; TId a] | Some None => [TP PAmp] | None => [] end.
-Definition pr_path (path: list string) : list tt := match path with [] => [] | s0 :: segs => TId s0 :: colons segs end.
+(* the printed path string, lexed again: an empty first segment is the leading `::` *)
+Definition pr_path (path: list string) : list tt := match path with [] => [] | s0 :: segs => (if s0 =? "" then [] else [TId s0]) ++ colons segs end.
 
 (* Type::full: reference prefix, Category::path, then `<` wraps joined by `,` `>` only for named categories *)
 Fixpoint pr (t: ty) : list tt :=
